@@ -47,6 +47,9 @@ fn boundary_values() -> Vec<(&'static str, PropertyValue)> {
         ("list-mixed", PropertyValue::Array(vec![PropertyValue::String("x'y".into()), PropertyValue::Integer(2)])),
         ("map", m(vec![("k1", PropertyValue::Integer(1)), ("k2", PropertyValue::String("m".into()))])),
         ("map-empty", m(vec![])),
+        // wide enough that two separately built hash maps with these entries practically never iterate in the same order
+        ("map-wide", m((1..=8).map(|i| (["k1", "k2", "k3", "k4", "k5", "k6", "k7", "k8"][i - 1], PropertyValue::Integer(i as i64))).collect())),
+        ("list-of-map", PropertyValue::Array(vec![m((1..=6).map(|i| (["k1", "k2", "k3", "k4", "k5", "k6"][i - 1], PropertyValue::String(format!("s{}", i)))).collect()), PropertyValue::Integer(2)])),
     ]
 }
 
@@ -144,6 +147,11 @@ fn templates() -> Vec<(&'static str, Tpl)> {
         ("aggregate-arg", Tpl::Raw("MATCH (v1:L0) RETURN count($p0) AS c0, collect($p0) AS c1".into())),
         ("exists-sub", Tpl::Raw("MATCH (v1:L0) WHERE EXISTS { MATCH (v1)-[:T0]->(v3) WHERE v3.k0 = $p0 } RETURN v1.k0 AS c0".into())),
         ("union-second-branch", Tpl::Raw("RETURN 1 AS c0 UNION ALL RETURN $p0 AS c0".into())),
+        // UNION de-duplicates: equal composite values on both branches (run with $p1 = $p0) must collapse to one row on both
+        // sides (the read executor keyed rows by the Debug text of a hash map: equal map literals did not always collapse)
+        ("union-nested", Tpl::Raw("RETURN [$p0] AS c0, {k0: $p1} AS c1 UNION RETURN [$p1] AS c0, {k0: $p0} AS c1".into())),
+        ("union-literal-vs-param", Tpl::Raw("RETURN [1, 2, 3] AS c0 UNION RETURN $p0 AS c0 UNION RETURN {k1: 1, k2: 'm'} AS c0 UNION RETURN $p1 AS c0".into())),
+        ("union-match", Tpl::Raw("MATCH (v1:L3) RETURN $p0 AS c0 UNION MATCH (v1:L3) RETURN $p1 AS c0".into())),
         ("unwind-then-where", Tpl::Raw("UNWIND [1, 2, 5] AS v0 WITH v0 WHERE v0 = $p0 RETURN v0 AS c0".into())),
         ("remove-label-return", Tpl::Raw("MATCH (v1:L2) SET v1.k1 = $p0 REMOVE v1.k0 RETURN v1.k1 AS c0".into())),
         // --- round 3: three-valued logic.  A parameter (null / true / false / anything) as a DIRECT operand of
@@ -199,6 +207,91 @@ fn templates() -> Vec<(&'static str, Tpl)> {
         ("flat-in-control", Tpl::Raw("RETURN 1 IN [$p0, 2] AS c0, [1, $p0] + [3] AS c1, [$p0, 2] = [1, 2] AS c2".into())),
         ("3vl-comprehension-filter", Tpl::Raw("RETURN [x IN [true, false, null] WHERE NOT ($p0 AND x) | x] AS c0, [x IN [true, false, null] | ($p0 OR x)] AS c1".into())),
     ]
+    .into_iter()
+    .chain(case_templates())
+    .collect()
+}
+
+/// Class of the seeded change C35-d (one child of CASE skipped by `substitute_expr`): a parameter in every
+/// sub-position of CASE — operand / WHEN / THEN / ELSE, searched and simple form, a second WHEN clause, a CASE
+/// nested in ELSE — with the CASE placed where the engine does NOT propagate an evaluation error but reads it as
+/// NULL (sort keys of RETURN ... ORDER BY and of WITH ... ORDER BY) or as false (WITH ... WHERE), so a leftover
+/// `$p` would silently change the answer instead of being refused; plain RETURN / WHERE as controls.  Rows are
+/// compared as a bag, so the order is observed through LIMIT / SKIP (RETURN) and collect() (WITH).  Over :L3
+/// (k0 = 1, 2, 3) every CASE has at least one row taking a WHEN branch and one falling through to ELSE.
+/// `$p0` is the focal position; `$p1` (= 1, 2, null in the exhaustive part) fills the others in the `*-all` forms.
+/// Also the sibling optional children of `substitute_expr` (slice bounds, comprehension filter) in the same places.
+fn case_templates() -> Vec<(&'static str, Tpl)> {
+    // (name of the CASE shape, text); the key is finite for every row when the parameters are numbers
+    let shapes: Vec<(&str, &str)> = vec![
+        ("s-when", "CASE WHEN v1.k0 <= $p0 THEN 0 ELSE v1.k0 END"),
+        ("s-then", "CASE WHEN v1.k0 >= 2 THEN $p0 ELSE v1.k0 END"),
+        ("s-else", "CASE WHEN v1.k0 < 2 THEN v1.k0 ELSE $p0 END"),
+        ("s-all", "CASE WHEN v1.k0 <= $p1 THEN $p1 ELSE $p0 END"),
+        ("s-when2", "CASE WHEN v1.k0 = 3 THEN 3 WHEN v1.k0 = $p1 THEN $p0 ELSE 2 END"),
+        ("s-nested", "CASE WHEN v1.k0 = 1 THEN 1 ELSE CASE WHEN v1.k0 = 2 THEN $p0 ELSE $p1 END END"),
+        ("c-operand", "CASE $p0 WHEN v1.k0 THEN 0 ELSE v1.k0 END"),
+        ("c-when", "CASE v1.k0 WHEN $p0 THEN 0 ELSE v1.k0 END"),
+        ("c-then", "CASE v1.k0 WHEN 2 THEN $p0 ELSE v1.k0 END"),
+        ("c-else", "CASE v1.k0 WHEN 1 THEN v1.k0 ELSE $p0 END"),
+        ("c-all", "CASE $p1 WHEN v1.k0 THEN $p1 ELSE $p0 END"),
+        ("c-no-else", "CASE v1.k0 WHEN 2 THEN $p0 WHEN 3 THEN $p1 END"),
+    ];
+    // (name of the place, text with `{K}` for the CASE)
+    let sites: Vec<(&str, &str)> = vec![
+        ("ctl", "MATCH (v1:L3) WHERE ({K}) IS NOT NULL RETURN v1.k0 AS c0, {K} AS c1"),
+        ("ret-orderby-first", "MATCH (v1:L3) RETURN v1.k0 AS c0 ORDER BY {K}, v1.k0 DESC LIMIT 1"),
+        ("ret-orderby-last", "MATCH (v1:L3) RETURN v1.k0 AS c0 ORDER BY {K} DESC, v1.k0 SKIP 2"),
+        ("with-orderby", "MATCH (v1:L3) WITH v1 ORDER BY {K}, v1.k0 DESC RETURN collect(v1.k0) AS c0"),
+        ("with-where-notnull", "MATCH (v1:L3) WITH v1 WHERE ({K}) IS NOT NULL RETURN v1.k0 AS c0"),
+        ("with-where-cmp", "MATCH (v1:L3) WITH v1 WHERE v1.k0 >= {K} RETURN v1.k0 AS c0"),
+    ];
+    let mut out: Vec<(&'static str, Tpl)> = vec![];
+    for (sn, site) in &sites {
+        for (kn, k) in &shapes {
+            let name: &'static str = Box::leak(format!("case-{}-{}", sn, kn).into_boxed_str());
+            out.push((name, Tpl::Raw(site.replace("{K}", k))));
+        }
+    }
+    let extra: Vec<(&'static str, &str)> = vec![
+        // a null parameter in ELSE / THEN: the row is kept by the inlined text only through IS NULL
+        ("case-with-where-isnull-else", "MATCH (v1:L3) WITH v1 WHERE (CASE WHEN v1.k0 < 2 THEN v1.k0 ELSE $p0 END) IS NULL OR v1.k0 = 1 RETURN v1.k0 AS c0"),
+        ("case-with-where-isnull-then", "MATCH (v1:L3) WITH v1 WHERE (CASE v1.k0 WHEN 2 THEN $p0 ELSE v1.k0 END) IS NULL OR v1.k0 = 1 RETURN v1.k0 AS c0"),
+        // string keys over :L0 (k1 = 'a', 'it\'s', absent, 'é漢 🙂', true), the shape of the seeded demo
+        ("case-with-orderby-str", "MATCH (v1:L0) WITH v1 ORDER BY CASE v1.k1 WHEN $p0 THEN 'zzz' ELSE $p1 END, v1.k0 DESC RETURN collect(v1.k0) AS c0"),
+        ("case-with-orderby-str-else", "MATCH (v1:L0) WITH v1 ORDER BY CASE WHEN v1.k1 = 'a' THEN 'zzz' ELSE $p0 END, v1.k0 DESC RETURN collect(v1.k0) AS c0"),
+        ("case-with-where-startswith", "MATCH (v1:L0) WITH v1 WHERE v1.k0 >= CASE WHEN v1.k1 STARTS WITH $p0 THEN $p1 ELSE 0 END RETURN v1.k0 AS c0"),
+        ("case-with-where-threshold", "MATCH (v1:L0) WITH v1 WHERE v1.k0 >= CASE WHEN v1.k1 STARTS WITH 'a' THEN 5 ELSE $p0 END RETURN v1.k0 AS c0"),
+        // other shapes of the statement around the sort / the barrier
+        ("case-distinct-orderby", "MATCH (v1:L3) RETURN DISTINCT v1.k0 AS c0 ORDER BY CASE WHEN v1.k0 < 2 THEN v1.k0 ELSE $p0 END, v1.k0 DESC LIMIT 1"),
+        ("case-orderby-alias", "MATCH (v1:L3) RETURN v1.k0 AS c0 ORDER BY CASE WHEN c0 < 2 THEN c0 ELSE $p0 END, c0 DESC LIMIT 1"),
+        ("case-agg-orderby", "MATCH (v1:L3) RETURN v1.k0 AS c0, count(v1) AS c1 ORDER BY CASE WHEN c0 < 2 THEN c0 ELSE $p0 END, c0 DESC LIMIT 1"),
+        ("case-with-alias-orderby", "MATCH (v1:L3) WITH v1.k0 AS v4 ORDER BY CASE v4 WHEN 1 THEN v4 ELSE $p0 END, v4 DESC RETURN collect(v4) AS c0"),
+        ("case-with-orderby-limit", "MATCH (v1:L3) WITH v1 ORDER BY CASE WHEN v1.k0 < 2 THEN v1.k0 ELSE $p0 END DESC, v1.k0 LIMIT 2 RETURN collect(v1.k0) AS c0"),
+        ("case-unwind-with-where", "UNWIND [1, 2, 3] AS v0 WITH v0 WHERE v0 >= CASE WHEN v0 < 2 THEN v0 ELSE $p0 END RETURN v0 AS c0"),
+        ("case-unwind-with-orderby", "UNWIND [1, 2, 3] AS v0 WITH v0 ORDER BY CASE v0 WHEN $p1 THEN v0 ELSE $p0 END, v0 DESC RETURN collect(v0) AS c0"),
+        // a parameter in an EARLIER WITH stage (`Query::extra_with_stages`; `substitute_params` visited only the last WITH:
+        // p0 = 0 gave no rows vs 1, 2, 3, and p0 = -1 gave [1,2,3] vs [3,2,1]) — repaired, corpus/C35/earlier-with-stage
+        ("earlier-with-where", "MATCH (v1:L3) WITH v1 WHERE v1.k0 >= $p0 WITH v1 RETURN v1.k0 AS c0"),
+        ("earlier-with-orderby", "MATCH (v1:L3) WITH v1 ORDER BY v1.k0 * $p0 WITH v1 RETURN collect(v1.k0) AS c0"),
+        ("earlier-with-item", "MATCH (v1:L3) WITH v1, v1.k0 + $p0 AS v4 WITH v1, v4 WHERE v4 >= $p1 WITH v1, v4 ORDER BY v4 * $p0, v1.k0 RETURN collect(v1.k0) AS c0, collect(v4) AS c1"),
+        ("earlier-with-post-where", "MATCH (v1:L3) WITH v1 MATCH (v2:L3) WHERE v2.k0 > v1.k0 + $p0 WITH v1, v2 RETURN v1.k0 AS c0, v2.k0 AS c1"),
+        ("case-two-barriers", "MATCH (v1:L3) WITH v1 WHERE v1.k0 >= CASE WHEN v1.k0 < 2 THEN 0 ELSE $p0 END WITH v1 ORDER BY CASE WHEN v1.k0 > 2 THEN $p0 ELSE $p1 END, v1.k0 DESC RETURN collect(v1.k0) AS c0"),
+        ("case-set-ctl", "MATCH (v1:L3) SET v1.k1 = CASE WHEN v1.k0 < 2 THEN v1.k0 ELSE $p0 END RETURN v1.k0 AS c0"),
+        ("case-in-list-orderby", "MATCH (v1:L3) WITH v1 ORDER BY [CASE WHEN v1.k0 < 2 THEN v1.k0 ELSE $p0 END][0], v1.k0 DESC RETURN collect(v1.k0) AS c0"),
+        ("case-in-fn-orderby", "MATCH (v1:L3) WITH v1 ORDER BY coalesce(CASE WHEN v1.k0 < 2 THEN null ELSE $p0 END, 2), v1.k0 DESC RETURN collect(v1.k0) AS c0"),
+        // the other optional children: slice bounds, comprehension filter
+        ("opt-slice-end-orderby", "MATCH (v1:L3) WITH v1 ORDER BY [0, 30, 20, 10][v1.k0..$p0][0], v1.k0 DESC RETURN collect(v1.k0) AS c0"),
+        ("opt-slice-start-orderby", "MATCH (v1:L3) RETURN v1.k0 AS c0 ORDER BY [30, 20, 10, 40 - v1.k0, 5][$p0..4][2], v1.k0 DESC LIMIT 1"),
+        ("opt-slice-with-where", "MATCH (v1:L3) WITH v1 WHERE size([1, 2, 3, 4][$p0..v1.k0]) >= 1 RETURN v1.k0 AS c0"),
+        ("opt-comp-filter-with-where", "MATCH (v1:L3) WITH v1 WHERE size([x IN [1, 2, 3] WHERE x >= $p0 | x]) >= v1.k0 RETURN v1.k0 AS c0"),
+        ("opt-comp-filter-orderby", "MATCH (v1:L3) WITH v1 ORDER BY size([x IN [1, 2, 3] WHERE x >= $p0 AND x <> v1.k0 | x]) + v1.k0 * $p1, v1.k0 DESC RETURN collect(v1.k0) AS c0"),
+        ("opt-comp-map-orderby", "MATCH (v1:L3) RETURN v1.k0 AS c0 ORDER BY [x IN [v1.k0] | CASE WHEN x < 2 THEN x ELSE $p0 END][0], v1.k0 DESC LIMIT 1"),
+    ];
+    for (n, t) in extra {
+        out.push((n, Tpl::Raw(t.to_string())));
+    }
+    out
 }
 
 fn build_store() -> GraphStore {
@@ -428,10 +521,20 @@ fn main() {
                         run(name, tpl, v0, &v1, &mut cases);
                     }
                 }
+                if name.starts_with("union") {
+                    // the same value on every branch: UNION must collapse the rows with parameters and with literals alike
+                    run(name, tpl, v0, v0, &mut cases);
+                }
+                if name.starts_with("case-") && matches!(tpl, Tpl::Raw(t) if t.contains("$p1")) {
+                    // another row selected by the companion / a null companion
+                    for v1 in [PropertyValue::Integer(2), PropertyValue::Null] {
+                        run(name, tpl, v0, &v1, &mut cases);
+                    }
+                }
             }
         }
         rep.exhaustive = true;
-        rep.exhaustive_note = format!("{} templates x {} boundary values for $p0 with $p1 = 1 (the 3vl-* templates also with $p1 in null/true/false); plus random (template, $p0, $p1) triples; plus scripts on ONE executor: every template as the second statement x 6 values, and random 2-4 statement scripts (a third of them re-parameterised between statements)", tpls.len(), vals.len());
+        rep.exhaustive_note = format!("{} templates x {} boundary values for $p0 with $p1 = 1 (the 3vl-* templates also with $p1 in null/true/false, the case-* templates that use $p1 also with $p1 in 2/null, the union* templates also with $p1 = $p0); plus random (template, $p0, $p1) triples; plus scripts on ONE executor: every template as the second statement x 6 values, and random 2-4 statement scripts (a third of them re-parameterised between statements)", tpls.len(), vals.len());
         // scripts: every template as the SECOND statement after a parameterised first one (same executor),
         // with three characteristic values; then random scripts of 2-4 statements and re-parameterised ones
         let script_tpls: Vec<&(&'static str, Tpl)> = tpls.iter().filter(|(n, _)| *n != "param-map-access").collect();
